@@ -103,9 +103,9 @@ theorem array_add (w : Arr.W) (e : Enc) (b : SecBuf) (hI : b.Inv) (a : BitVec 64
 theorem array_adds (w : Arr.W) (e : Enc) (b : SecBuf) (hI : b.Inv) (as : List (BitVec 64))
     (hb : Bound b.cls (b.content.length + w.bytes * as.length)) :
     ∃ b', Arr.addAll w e b as = .ok b' ∧ b'.Inv ∧ b'.cls = b.cls ∧
-      b'.content = b.content ++ Spec.encodeTable e w.bytes (as.map (·.toNat)) := by
+      b'.content = b.content ++ Spec.encodeArrTable e w.bytes (as.map (·.toNat)) := by
   induction as generalizing b with
-  | nil => exact ⟨b, rfl, hI, rfl, by simp [Spec.encodeTable]⟩
+  | nil => exact ⟨b, rfl, hI, rfl, by simp [Spec.encodeArrTable]⟩
   | cons a as ih =>
     simp only [List.length_cons, Nat.mul_add, Nat.mul_one] at hb
     obtain ⟨b1, e1, i1, c1, v1⟩ := array_add w e b hI a (bound_mono hb (by omega))
@@ -113,7 +113,7 @@ theorem array_adds (w : Arr.W) (e : Enc) (b : SecBuf) (hI : b.Inv) (as : List (B
       rw [c1, v1]; simp only [List.length_append, encodeInt_length]; exact bound_mono hb (by omega))
     refine ⟨b2, ?_, i2, by rw [c2, c1], ?_⟩
     · simp only [Arr.addAll, e1, bind, Except.bind]; exact e2
-    · rw [v2, v1]; simp [Spec.encodeTable]
+    · rw [v2, v1]; simp [Spec.encodeArrTable]
 
 theorem entriesNum_toNat (w : Arr.W) (b : SecBuf) :
     (Arr.entriesNum w b).toNat = b.size.toNat / w.bytes := by
@@ -123,7 +123,7 @@ theorem entriesNum_toNat (w : Arr.W) (b : SecBuf) :
     whose content is a table of `w`-byte entries in declared order, `get_entry(k)` is the `k`-th
     entry truncated to the entry width, and `false` for every 64-bit index beyond the end -/
 theorem array_get (w : Arr.W) (e : Enc) (b : SecBuf) (hI : b.Inv) (vs : List Nat)
-    (hc : b.content = Spec.encodeTable e w.bytes vs) (index : BitVec 64) :
+    (hc : b.content = Spec.encodeArrTable e w.bytes vs) (index : BitVec 64) :
     Arr.getEntry w e b index =
       .ok (if h : index.toNat < vs.length then some (BitVec.ofNat 64 (vs[index.toNat] % 2 ^ (8 * w.bytes)))
            else none) := by
@@ -205,7 +205,7 @@ theorem array_bytes (w : Arr.W) (cls : Cls) (e : Enc) (ty : BitVec 32)
     (hty : ty ≠ BitVec.ofNat 32 SHT_NOBITS) (as : List (BitVec 64))
     (hb : Bound cls (w.bytes * as.length)) :
     ∃ b', Arr.addAll w e (SecBuf.fresh cls ty) as = .ok b' ∧
-      b'.content = Spec.encodeTable e w.bytes (as.map (·.toNat)) := by
+      b'.content = Spec.encodeArrTable e w.bytes (as.map (·.toNat)) := by
   obtain ⟨hI, hc⟩ := fresh_inv cls ty hty
   obtain ⟨b', e1, _, _, v1⟩ := array_adds w e (SecBuf.fresh cls ty) hI as (by
     rw [hc]; simpa [SecBuf.fresh] using hb)
@@ -217,13 +217,13 @@ theorem array_get_reloaded (w : Arr.W) (cls : Cls) (e : Enc) (ty : BitVec 32) (l
     (hty : ty ≠ BitVec.ofNat 32 SHT_NOBITS) (hty0 : ty ≠ BitVec.ofNat 32 SHT_NULL) (vs : List Nat)
     (hlen : w.bytes * vs.length < 18446744073709551616) (k : BitVec 64) :
     Arr.getEntry w e
-      (if lazy then SecBuf.loadedLazy cls ty (Spec.encodeTable e w.bytes vs) ss
-       else SecBuf.loadedEager cls ty (Spec.encodeTable e w.bytes vs) ss) k =
+      (if lazy then SecBuf.loadedLazy cls ty (Spec.encodeArrTable e w.bytes vs) ss
+       else SecBuf.loadedEager cls ty (Spec.encodeArrTable e w.bytes vs) ss) k =
       .ok (if h : k.toNat < vs.length then some (BitVec.ofNat 64 (vs[k.toNat] % 2 ^ (8 * w.bytes))) else none) := by
   cases lazy
-  · obtain ⟨hI, hc⟩ := loaded_inv cls ty (Spec.encodeTable e w.bytes vs) ss hty (by simpa using hlen)
+  · obtain ⟨hI, hc⟩ := loaded_inv cls ty (Spec.encodeArrTable e w.bytes vs) ss hty (by simpa using hlen)
     exact array_get w e _ hI vs hc k
-  · obtain ⟨hI, hc⟩ := lazy_inv cls ty (Spec.encodeTable e w.bytes vs) ss hty hty0 (by simpa using hlen)
+  · obtain ⟨hI, hc⟩ := lazy_inv cls ty (Spec.encodeArrTable e w.bytes vs) ss hty hty0 (by simpa using hlen)
     exact array_get w e _ hI vs hc k
 
 /-! ## symbol-version table (`.gnu.version`) -/
@@ -244,9 +244,9 @@ theorem versym_add (b : SecBuf) (hI : b.Inv) (num : BitVec 32) (v : BitVec 16)
 theorem versym_adds (b : SecBuf) (hI : b.Inv) (num : BitVec 32) (vs : List (BitVec 16))
     (hb : Bound b.cls (b.content.length + 2 * vs.length)) :
     ∃ b', Versym.addAll b num vs = .ok (b', num + BitVec.ofNat 32 vs.length) ∧ b'.Inv ∧ b'.cls = b.cls ∧
-      b'.content = b.content ++ Spec.encodeTable hostEnc 2 (vs.map (·.toNat)) := by
+      b'.content = b.content ++ Spec.encodeArrTable hostEnc 2 (vs.map (·.toNat)) := by
   induction vs generalizing b num with
-  | nil => exact ⟨b, by simp [Versym.addAll, pure, Except.pure], hI, rfl, by simp [Spec.encodeTable]⟩
+  | nil => exact ⟨b, by simp [Versym.addAll, pure, Except.pure], hI, rfl, by simp [Spec.encodeArrTable]⟩
   | cons v vs ih =>
     simp only [List.length_cons, Nat.mul_add, Nat.mul_one] at hb
     obtain ⟨b1, e1, i1, c1, v1⟩ := versym_add b hI num v (bound_mono hb (by omega))
@@ -260,12 +260,12 @@ theorem versym_adds (b : SecBuf) (hI : b.Inv) (num : BitVec 32) (vs : List (BitV
       have h1 : (1 : BitVec 32).toNat = 1 := rfl
       simp only [BitVec.toNat_add, BitVec.toNat_ofNat, List.length_cons, Nat.reducePow, h1]
       omega
-    · rw [v2, v1]; simp [Spec.encodeTable]
+    · rw [v2, v1]; simp [Spec.encodeArrTable]
 
 /-- **get_entry** : on every reachable section whose content is a table of host-order Halfs and
     whose accessor counts them, `get_entry(k)` is the `k`-th entry; `false` beyond the end -/
 theorem versym_get (b : SecBuf) (hI : b.Inv) (num : BitVec 32) (vs : List Nat)
-    (hc : b.content = Spec.encodeTable hostEnc 2 vs) (hnum : num.toNat = vs.length) (no : BitVec 32) :
+    (hc : b.content = Spec.encodeArrTable hostEnc 2 vs) (hnum : num.toNat = vs.length) (no : BitVec 32) :
     Versym.getEntry b num no =
       .ok (if h : no.toNat < vs.length then some (BitVec.ofNat 16 (vs[no.toNat] % 65536)) else none) := by
   have hn := no.isLt
@@ -323,20 +323,20 @@ theorem versym_roundtrip (cls : Cls) (ty : BitVec 32) (hty : ty ≠ BitVec.ofNat
 theorem versym_get_reloaded (cls : Cls) (ty : BitVec 32) (lazy : Bool) (ss : BitVec 64)
     (hty : ty ≠ BitVec.ofNat 32 SHT_NOBITS) (hty0 : ty ≠ BitVec.ofNat 32 SHT_NULL) (vs : List Nat)
     (hlen : vs.length < 4294967296) (k : BitVec 32) :
-    let b := if lazy then SecBuf.loadedLazy cls ty (Spec.encodeTable hostEnc 2 vs) ss
-             else SecBuf.loadedEager cls ty (Spec.encodeTable hostEnc 2 vs) ss
+    let b := if lazy then SecBuf.loadedLazy cls ty (Spec.encodeArrTable hostEnc 2 vs) ss
+             else SecBuf.loadedEager cls ty (Spec.encodeArrTable hostEnc 2 vs) ss
     Versym.getEntry b (Versym.mk b) k =
       .ok (if h : k.toNat < vs.length then some (BitVec.ofNat 16 (vs[k.toNat] % 65536)) else none) := by
-  have hl : (Spec.encodeTable hostEnc 2 vs).length = 2 * vs.length := Spec.encodeTable_length _ _ _
+  have hl : (Spec.encodeArrTable hostEnc 2 vs).length = 2 * vs.length := Spec.encodeTable_length _ _ _
   have hmk : ∀ b : SecBuf, b.size = BitVec.ofNat 64 (2 * vs.length) → (Versym.mk b).toNat = vs.length := by
     intro b hs
     simp only [Versym.mk, vs_ctor_guard, if_true, vs_count, hs, BitVec.toNat_setWidth, BitVec.toNat_udiv,
       BitVec.toNat_ofNat, Nat.reducePow, Nat.reduceMod]
     omega
   cases lazy
-  · obtain ⟨hI, hc⟩ := loaded_inv cls ty (Spec.encodeTable hostEnc 2 vs) ss hty (by rw [hl]; omega)
+  · obtain ⟨hI, hc⟩ := loaded_inv cls ty (Spec.encodeArrTable hostEnc 2 vs) ss hty (by rw [hl]; omega)
     exact versym_get _ hI _ vs hc (hmk _ (by simp [SecBuf.loadedEager, hl])) k
-  · obtain ⟨hI, hc⟩ := lazy_inv cls ty (Spec.encodeTable hostEnc 2 vs) ss hty hty0 (by rw [hl]; omega)
+  · obtain ⟨hI, hc⟩ := lazy_inv cls ty (Spec.encodeArrTable hostEnc 2 vs) ss hty hty0 (by rw [hl]; omega)
     exact versym_get _ hI _ vs hc (hmk _ (by simp [SecBuf.loadedLazy, hl])) k
 
 /-- The full statement the property asks for — *false on the tree* (F4):
@@ -344,14 +344,14 @@ theorem versym_get_reloaded (cls : Cls) (ty : BitVec 32) (lazy : Bool) (ss : Bit
 def VersymBytesDeclaredOrder : Prop :=
   ∀ (cls : Cls) (e : Enc) (ty : BitVec 32) (vs : List (BitVec 16)) b' n',
     Versym.addAll (SecBuf.fresh cls ty) 0 vs = .ok (b', n') →
-    b'.content = Spec.encodeTable e 2 (vs.map (·.toNat))
+    b'.content = Spec.encodeArrTable e 2 (vs.map (·.toNat))
 
 /-- **versym_bytes_partial** : the stored bytes are in the declared byte order *when the declared
     order is the host's* (no conversion needed) — exactly the complement of F4's trigger -/
 theorem versym_bytes_partial (cls : Cls) (e : Enc) (he : needConv e = false) (ty : BitVec 32)
     (hty : ty ≠ BitVec.ofNat 32 SHT_NOBITS) (vs : List (BitVec 16)) (hb : Bound cls (2 * vs.length)) :
     ∃ b' n', Versym.addAll (SecBuf.fresh cls ty) 0 vs = .ok (b', n') ∧
-      b'.content = Spec.encodeTable e 2 (vs.map (·.toNat)) := by
+      b'.content = Spec.encodeArrTable e 2 (vs.map (·.toNat)) := by
   obtain ⟨hI, hc⟩ := fresh_inv cls ty hty
   obtain ⟨b', e1, _, _, v1⟩ := versym_adds (SecBuf.fresh cls ty) hI 0 vs (by
     rw [hc]; simpa [SecBuf.fresh] using hb)
@@ -363,7 +363,7 @@ theorem versym_bytes_partial (cls : Cls) (e : Enc) (he : needConv e = false) (ty
     demands `01 02`.  Hence `VersymBytesDeclaredOrder` is false. -/
 theorem versym_order_witness :
     ∃ b', Versym.addEntry (SecBuf.fresh .c32 (BitVec.ofNat 32 SHT_GNU_versym)) 0 0x0102#16 = .ok (b', 1) ∧
-      b'.content = [2, 1] ∧ Spec.encodeTable .msb 2 [0x0102] = [1, 2] := by
+      b'.content = [2, 1] ∧ Spec.encodeArrTable .msb 2 [0x0102] = [1, 2] := by
   obtain ⟨hI, hc⟩ := fresh_inv .c32 (BitVec.ofNat 32 SHT_GNU_versym) (by decide)
   obtain ⟨b', e1, _, _, v1⟩ := versym_add _ hI 0 0x0102#16 (by rw [hc]; simp [Bound, SecBuf.fresh])
   refine ⟨b', e1, ?_, by decide⟩
